@@ -25,6 +25,14 @@ func (t *tr) globals() string {
 	b.WriteString("Definition atoi_go (s : bytes) : Z * option err := match atoi s with Some v => (v, None) | None => (0%Z, Some (EStd 11 [])) end.\n")
 	b.WriteString("Definition lookup_go (raw : bytes) : suite_cfg * bool := match lookup raw known_suites with Some c => (c, true) | None => (zero_cfg, false) end.\n")
 	b.WriteString("Definition idxS (l : list bytes) (i : Z) : res bytes := if (i <? 0)%Z then Pnc else match nth_error l (Z.to_nat i) with Some b => Val b | None => Pnc end.\n")
+	b.WriteString("Definition parse_uint_go (s : bytes) : N * option err := match parse_uint64 s with Some v => (v, None) | None => (0, Some (EStd 1 [s])) end.\n")
+	b.WriteString("Definition hex_decode_go (s : bytes) : bytes * option err := match hex_decode s with Some b => (b, None) | None => ([], Some (EStd 2 [])) end.\n")
+	b.WriteString("(* new(big.Int).SetString(s, 10): optional sign, decimal digits; big.Int.Text(16): lower-case hexadecimal, '-' for negatives *)\n")
+	b.WriteString("Definition big_parse10 (s : bytes) : Z * bool :=\n  let '(neg, ds) := match s with 45 :: t => (true, t) | 43 :: t => (false, t) | _ => (false, s) end in\n  match ds with [] => (0%Z, false) | _ => if forallb is_dec_digit ds then ((if neg then - Z.of_N (dec_val ds) else Z.of_N (dec_val ds))%Z, true) else (0%Z, false) end.\n")
+	b.WriteString("Definition lower_ascii (c : N) : N := if (65 <=? c) && (c <=? 90) then c + 32 else c.\n")
+	b.WriteString("Definition big_text16 (z : Z) : bytes := if (z <? 0)%Z then 45 :: map lower_ascii (hex_text (Z.to_N (- z))) else map lower_ascii (hex_text (Z.to_N z)).\n")
+	b.WriteString("(* crypto/rand.Read(buf) fills the whole buffer from the source (oracle parameter) and never reports an error *)\n")
+	b.WriteString("Definition rand_fill (buf src : bytes) : bytes := firstn (length buf) src ++ skipn (length src) buf.\n")
 	b.WriteString("Definition b32_decode_go (s : bytes) : bytes * option err :=\n  let '(bs, o) := b32_decode_string s in (bs, match o with Some off => Some (EBase32 off) | None => None end).\n\n")
 	for _, f := range t.pkg.Syntax {
 		for _, d := range f.Decls {
